@@ -5,7 +5,9 @@ cd /repo || exit 2
 [ -z "$(git status --porcelain -- src)" ] || { echo "/repo/src is dirty; refusing"; exit 2; }
 git apply /verif/seeded/$ID/patch.diff || { echo "patch does not apply"; exit 2; }
 cd /verif
+export VX_EVIDENCE_DIR=$(mktemp -d /var/tmp/vx_mut_evidence.XXXXXX)
 PROPS="$@"
 [ -z "$PROPS" ] && PROPS=$(python3 -c "import json;print(json.load(open('/verif/seeded/$ID/meta.json'))['property'])")
 for p in $PROPS; do ./check $p | grep -E "^(VIOLATION|OK|INFRA|KNOWN|  failed)" ; echo "  -> exit $? (check $p, mutant $ID)"; done
+rm -rf "$VX_EVIDENCE_DIR"
 cd /repo && git checkout HEAD -- . && [ -z "$(git status --porcelain -- src)" ] && echo "repo restored"
